@@ -122,6 +122,69 @@ func c09ErrorsSurface(c *Ctx) {
 		}
 	}
 	c.fuseReadErrnoMulti("indexFileHandle.read", map[string]bool{"(*desync.IndexPos).Seek": false, "(*desync.IndexPos).Read": true})
+	c09StoreEOF(c)
+}
+
+// c09StoreEOF: io.Reader gives io.EOF a meaning of its own - io.Copy and friends take it for the
+// regular end.  A store may fail with a bare io.EOF (RemoteSSH does when the session ends at a
+// message boundary), so IndexPos.Read must not hand the store's error through unchanged: on the
+// path on which Store.GetChunk failed with io.EOF, the error Read returns is not
+// that io.EOF.
+func c09StoreEOF(c *Ctx) {
+	fn := c.mustFn("IndexPos.Read")
+	load := c.mustFn("IndexPos.loadChunk")
+	if fn == nil || load == nil {
+		return
+	}
+	var bad []string
+	eofPaths := 0
+	h := &Hooks{MaxVisits: 2, MaxPaths: 100000}
+	h.Inline = func(st *State, call *ssa.Call) (*ssa.Function, bool) {
+		if c.staticFn(call) == load {
+			return load, false
+		}
+		return nil, false
+	}
+	h.Fork = func(st *State, call *ssa.Call) []map[int]Val {
+		switch callee(call) {
+		case "(desync.Store).GetChunk":
+			return []map[int]Val{
+				{0: {N: NNon}, 1: {N: NNil, Class: ClsNil}},
+				{1: {N: NNon, Class: ClsOther, Sym: "is:io.EOF"}},
+			}
+		}
+		return nil
+	}
+	h.Return = func(st *State, ret *ssa.Return, results []Val) {
+		if len(results) != 2 {
+			return
+		}
+		failed := false
+		for _, v := range st.V {
+			if v.Sym == "is:io.EOF" {
+				failed = true
+			}
+		}
+		if !failed {
+			return
+		}
+		eofPaths++
+		if results[1].Sym == "is:io.EOF" || results[1].N != NNon {
+			bad = append(bad, fmt.Sprintf("return at %s yields %s after the store failed with io.EOF (trail %s)", c.pos(ret.Pos()), results[1], strings.Join(st.Trail, ">")))
+		}
+	}
+	Explore(fn, fn.Blocks[0], 0, nil, NewState(), h)
+	c.paths += h.Paths
+	switch {
+	case h.Truncated:
+		c.bad("IndexPos.Read:store-eof", fn.Pos(), "path exploration truncated")
+	case eofPaths == 0:
+		c.bad("IndexPos.Read:store-eof", fn.Pos(), "no path on which a chunk load fails was found")
+	case len(bad) > 0:
+		c.bad("IndexPos.Read:store-eof", fn.Pos(), "a store that fails with io.EOF ends the read like the end of the blob: %s; io.Copy reports success with truncated data", bad[0])
+	default:
+		c.ok("IndexPos.Read:store-eof", fn.Pos(), "on %d path(s) with a store failure of io.EOF, Read returns another non-nil error", eofPaths)
+	}
 }
 
 func first(l []string) string {
@@ -198,6 +261,7 @@ func (c *Ctx) fuseReadErrnoMulti(key string, callees map[string]bool) {
 func c09HandleLock(c *Ctx) {
 	c.guardedBy(guardedField{"indexFileHandle", "r", "mu", "per-handle cursor"}, nil)
 	c.lockPairing("indexFileHandle")
+	c.ownedCursor("indexFileHandle", "r", "desync.NewIndexReadSeeker")
 	fn := c.mustFn("indexFileHandle.read")
 	if fn == nil {
 		return
@@ -230,6 +294,83 @@ func c09HandleLock(c *Ctx) {
 			}
 		})
 		c.verdict(okA, "indexFileHandle.read:one-critical-section", seek.Pos(), "Seek and Read share one critical section", "the mutex is released between Seek and Read")
+	}
+}
+
+// ownedCursor: the lock that serialises a cursor lives in the handle, so the cursor must belong to
+// that handle alone - every value stored into <handle>.<field> is the result of a constructor call
+// made for this handle (directly, or handed in through parameters by callers that make the call
+// per invocation).  A cursor kept in the inode and shared by all handles is driven under several
+// different mutexes at once.
+func (c *Ctx) ownedCursor(typ, field string, ctors ...string) {
+	n := 0
+	isCtor := func(name string) bool {
+		for _, k := range ctors {
+			if name == k {
+				return true
+			}
+		}
+		return false
+	}
+	var fresh func(v ssa.Value, depth int) (bool, string)
+	fresh = func(v ssa.Value, depth int) (bool, string) {
+		if depth > 5 {
+			return false, "too deep"
+		}
+		for _, l := range leaves(v) {
+			if call, _ := callOf(l); call != nil && isCtor(callee(call)) {
+				continue
+			}
+			if _, isAlloc := l.(*ssa.Alloc); isAlloc {
+				continue // a cursor literal built here
+			}
+			p, isParam := l.(*ssa.Parameter)
+			if !isParam {
+				return false, fmt.Sprintf("%s (%T)", strings.Join(origins(l), ","), l)
+			}
+			g := p.Parent()
+			idx := -1
+			for i, q := range g.Params {
+				if q == p {
+					idx = i
+				}
+			}
+			sites := 0
+			for _, caller := range c.subjects() {
+				for _, cs := range calls(caller, func(string) bool { return true }) {
+					if c.staticFn(cs) != g || idx >= len(cs.Common().Args) {
+						continue
+					}
+					sites++
+					if ok, why := fresh(cs.Common().Args[idx], depth+1); !ok {
+						return false, why
+					}
+				}
+			}
+			if sites == 0 {
+				return false, "parameter of a function without visible call sites"
+			}
+		}
+		return true, ""
+	}
+	for _, fn := range c.subjects() {
+		instrs(fn, func(_ *ssa.BasicBlock, _ int, ins ssa.Instruction) {
+			st, ok := ins.(*ssa.Store)
+			if !ok {
+				return
+			}
+			fa, ok := st.Addr.(*ssa.FieldAddr)
+			if !ok || fieldOf(fa) != typ+"."+field {
+				return
+			}
+			n++
+			ok2, why := fresh(st.Val, 0)
+			c.verdict(ok2, fnKey(fn)+":"+typ+"."+field+"-fresh", ins.Pos(), "the handle's cursor is created for this handle",
+				"the cursor stored in the handle is not created for it ("+why+"): handles that share one cursor drive it under different mutexes, concurrent reads on two handles return each other's bytes")
+		})
+	}
+	if n == 0 {
+		c.bad(typ+"."+field+"-fresh", 0, "no construction of %s.%s found", typ, field)
 	}
 }
 
